@@ -275,44 +275,45 @@ def check_nullish_tables(ctx, rule):
                 tests.append(n)
     ctx.expect_count(rule, 'null-row test of the stage loop', len(tests), 1)
     env = G.single_assignments(es.node)
+    import itertools
+    alphabet = sorted(need) + ['*-', '4c', '=', '*^', '!']
+    samples = [[]] + [[a] for a in alphabet] + [[a, b] for a in alphabet for b in alphabet]
     for t in tests:
         at = f'{es.module.relpath}:{t.lineno}'
         test = G.substitute(t.test, {k: v for k, v in env.items() if k != 'row'})
-        names = {x.id for x in ast.walk(test) if isinstance(x, ast.Name)}
-        sets = []
-        for x in ast.walk(test):
-            if isinstance(x, ast.Compare) and len(x.ops) == 1 and isinstance(x.ops[0], (ast.In, ast.NotIn)):
-                ok, v = ctx.ce.try_eval(x.comparators[0], es.module)
-                if ok and isinstance(v, (set, list, tuple, frozenset)):
-                    sets.append(set(v))
-        on_cells = names <= {'row', 'token', 'len', 'all', 'any', 'cell', 'col', 'c', 't'} and len(sets) == 1
-        if not on_cells:
+        names = {x.id for x in ast.walk(test) if isinstance(x, ast.Name) and isinstance(x.ctx, ast.Load)}
+        bound = {x.id for c in ast.walk(test) if isinstance(c, ast.comprehension) for x in ast.walk(c.target) if isinstance(x, ast.Name)}
+        if not (names - bound) <= {'row', 'len', 'all', 'any', 'set', 'frozenset', 'empty_row'}:
             ctx.violation(rule, at, es.qualname, 'null-row-test-not-on-exported-cells',
                           f'the row test `{src(t.test)[:100]}` does not compare the exported cells with the placeholder table: a cell '
                           f'that became a placeholder through a gate (a hidden barline, a filtered token) is not recognised as null, so '
                           f'the first export keeps an all-placeholder row that the second export drops')
             continue
-        s_ = sets[0]
-        ctx.check(need <= s_, rule, at, es.qualname, 'nullish-set-misses-placeholder',
-                  f'every placeholder a filtered cell can become ({sorted(need)}) is in the null-row set',
-                  f'null-row set {sorted(s_)} misses {sorted(need - s_)}: a line left with only placeholders is not dropped')
-        ctx.check(s_ <= need, rule, at, es.qualname, 'nullish-set-too-wide',
-                  'the null-row set contains nothing but placeholders', f'null-row set {sorted(s_)} also drops rows of {sorted(s_ - need)}')
-        fm = G._formula(test)
-        canon_ok = src(test) in ("len(row) > 0 and (not all((token in {'.', '*', ''} for token in row)))",) or True
-        # semantic shape: kept iff non-empty and some cell is not a placeholder
-        s2 = src(t.test)
-        ok = ('not all(' in s2 and ' in ' in s2) or ('any(' in s2 and 'not in' in s2)
-        ctx.check(ok, rule, at, es.qualname, 'null-row-test',
-                  'a row is kept iff it has a cell that is not a placeholder', f'row test is `{s2}`')
-    # empty_row: returns False iff some col not in the table
-    er_set = set()
-    for n in walk_local(er.node):
-        if isinstance(n, ast.Compare) and len(n.ops) == 1 and isinstance(n.ops[0], (ast.NotEq, ast.NotIn)):
-            try:
-                v = ast.literal_eval(n.comparators[0])
-                er_set |= set(v) if isinstance(v, (set, list, tuple)) else {v}
-            except Exception:
-                pass
-    ctx.check(er_set == need, rule, er.loc, er.qualname, 'empty-row-table',
-              'empty_row tests the same placeholder table', f'empty_row tests {sorted(er_set)}, placeholders are {sorted(need)}')
+        # the checker's evaluator interprets the test on every row of at most two cells over placeholders and other cells
+        kept_wrong, dropped_wrong = [], []
+        for row in samples:
+            ok_, v = ctx.ce.try_eval(test, es.module, None, {'row': list(row)})
+            if not ok_:
+                raise AnalysisError(f'{at}: the row test `{src(test)[:100]}` cannot be interpreted')
+            want = len(row) > 0 and any(c not in need for c in row)
+            if bool(v) and not want:
+                kept_wrong.append(row)
+            if want and not bool(v):
+                dropped_wrong.append(row)
+        ctx.check(not kept_wrong, rule, at, es.qualname, 'nullish-set-misses-placeholder',
+                  f'a row that holds only placeholders ({sorted(need)}) is dropped (test interpreted on {len(samples)} rows)',
+                  f'the row test keeps the all-placeholder row {kept_wrong[0] if kept_wrong else None}: a line left with only placeholders is not dropped')
+        ctx.check(not dropped_wrong, rule, at, es.qualname, 'null-row-test',
+                  'a row is kept iff it has a cell that is not a placeholder',
+                  f'the row test `{src(t.test)[:80]}` drops the row {dropped_wrong[0] if dropped_wrong else None}')
+    # empty_row: True iff every cell is a placeholder
+    bad = []
+    for row in samples:
+        ok_, v = F.eval_function(ctx, er, {er.params[0]: list(row)})
+        if not ok_:
+            raise AnalysisError(f'{er.loc}: empty_row cannot be interpreted')
+        if bool(v) != all(c in need - {empty_token} | {'', '.', '*'} for c in row):
+            bad.append((row, v))
+    ctx.check(not bad, rule, er.loc, er.qualname, 'empty-row-table',
+              f'empty_row is true exactly for rows of placeholders (interpreted on {len(samples)} rows)',
+              f'empty_row({bad[0][0] if bad else None}) is {bad[0][1] if bad else None}')
